@@ -16,7 +16,14 @@ clause → theorem
 * length = 48 + |q| + |b| .................... `C01.build_consistent`, `C01.streaming_patches_lengths`
 * parse returns an identical message ......... `C01.header_round_trip`, `C01.message_round_trip`
 * one encoding ............................... `C01.one_encoding`
-* every emission route byte-identical ........ `C01.routes_agree`, `C01.server_echo_routes_agree`
+* every emission route byte-identical ........ `C01.routes_agree`, `C01.server_echo_routes_agree`,
+                                               `C01.source_routes_agree` (write sequences re-read from the source),
+                                               `C01.streaming_prefix`, `C01.async_server_frame_agrees`,
+                                               `C01.error_response_paths_agree`, `C01.response_paths_agree`
+* the model transcribes the current source .... `C01.source_shapes` (in-place steps, length patches, builder, stamping,
+                                               echo rule, server call sites; re-extracted on every run)
+* stream read-back returns the frame .......... `C01.stream_round_trip`, `C01.stream_pipelined_round_trip`
+* `serialized_len` = emitted length ........... `C01.serialized_len_is_frame_length`
 
 All theorems hold for every header field value in its full range (reserved bits, unknown format
 codes, any version/notify byte), every query and body, every capacity of the body buffer.
@@ -98,6 +105,103 @@ emit the same bytes for the same response and request query. -/
 theorem server_echo_routes_agree (resp : Message) (wf : resp.WF) (reqQuery : Bytes) (cap : Nat) :
     serverFrame resp reqQuery = (stampResponseQuery resp reqQuery).intoWireBytes cap := by
   rw [intoWireBytes_eq_toVec]; exact serverFrame_eq_stamped resp wf reqQuery
+
+/-! ### coverage-audit pass: routes and shapes tied to the current source -/
+
+/-- The write sequences the extractor reads off `to_vec`, `write_to`, `write_message`,
+`write_message_async`, the fresh-buffer branch of `into_wire_bytes` and the async server's
+`write_view_response` (header, then query, then body; each guarded by `is_empty` or not) emit `to_vec`.
+An unrecognised statement in one of those functions becomes `.unknown` and this theorem fails. -/
+theorem source_routes_agree (m : Message) :
+    emitParts Gen.toVecParts m = m.toVec ∧ emitParts Gen.writeToParts m = m.toVec ∧
+    emitParts Gen.writeMessageParts m = m.toVec ∧ emitParts Gen.writeMessageAsyncParts m = m.toVec ∧
+    emitParts Gen.freshBufferParts m = m.toVec ∧ emitParts Gen.viewResponseParts m = m.toVec :=
+  ⟨emitParts_ok _ (by decide) m, emitParts_ok _ (by decide) m, emitParts_ok _ (by decide) m,
+   emitParts_ok _ (by decide) m, emitParts_ok _ (by decide) m, emitParts_ok _ (by decide) m⟩
+
+/-- `write_message_streaming` writes header and query itself, then hands the sink to the body callback. -/
+theorem streaming_prefix (m : Message) : emitParts Gen.streamingParts m ++ m.body = m.toVec :=
+  emitParts_prefix_ok _ (by decide) m
+
+/-- The statement-by-statement shape of the functions the model transcribes is the one in the current
+source: in-place branch of `into_wire_bytes` (capacity test `>=`, resize, guarded `copy_within`, header,
+guarded query), the three unconditional length patches of `write_message_streaming`, the two of
+`write_view_response`, `MessageBuilder::build` + `Header::new`, the guard and patches of
+`stamp_response_query`, `response_echo_query`, the two error-response constructors, the servers' call
+sites (both pass the echoed query; the blocking one passes `resp.body.len()`), and `Header::decode`
+returning exactly the parsed fields. Any other shape is extracted as `false`. -/
+theorem source_shapes :
+    Gen.inPlaceShape = true ∧ Gen.streamingPatches = true ∧ Gen.viewResponsePatches = true ∧
+    Gen.buildShape = true ∧ Gen.stampShape = true ∧ Gen.echoShape = true ∧
+    Gen.errorLikeShape = true ∧ Gen.errorUnstampedShape = true ∧
+    Gen.serverEchoCall = true ∧ Gen.asyncServerEchoCalls = true ∧ Gen.decodeReturnsParsed = true := by
+  decide
+
+/-- Async TCP server (`write_view_response`, which keeps the header's own `body_length`) and blocking
+TCP server (`write_message_streaming`, which patches it from `body.len()`) frame a consistent response
+identically, and identically to the WebSocket server. -/
+theorem async_server_frame_agrees (resp : Message) (wf : resp.WF) (reqQuery : Bytes) (cap : Nat) :
+    asyncServerFrame resp reqQuery = serverFrame resp reqQuery ∧
+    asyncServerFrame resp reqQuery = (stampResponseQuery resp reqQuery).intoWireBytes cap := by
+  refine ⟨asyncServerFrame_eq_serverFrame resp wf reqQuery, ?_⟩
+  rw [asyncServerFrame_eq_serverFrame resp wf reqQuery]
+  exact server_echo_routes_agree resp wf reqQuery cap
+
+/-- Owned (`create_error_response_like`) and borrowing (`…_unstamped_view` + stamp) error paths build the
+same message; it is consistent. -/
+theorem error_response_paths_agree (reqId : Nat) (reqQuery : Bytes) (code : Nat) (msg : Bytes) :
+    stampResponseQuery (createErrorResponseUnstamped reqId code msg) reqQuery =
+      createErrorResponseLike reqId reqQuery code msg :=
+  stamp_unstamped_error reqId reqQuery code msg
+
+theorem error_response_consistent (reqId : Nat) (reqQuery : Bytes) (code : Nat) (msg : Bytes)
+    (hid : reqId < 2^64) (hc : code < 2^32) (hlen : 48 + reqQuery.length + msg.length < 2^64) :
+    (createErrorResponseLike reqId reqQuery code msg).WF :=
+  createErrorResponseLike_wf reqId reqQuery code msg hid hc hlen
+
+example : (createErrorResponseLike 7 [47, 120] 6 [110, 111]).WF :=
+  error_response_consistent 7 [47, 120] 6 [110, 111] (by decide) (by decide) (by decide)
+
+/-- `create_response` = `create_response_unstamped` + `stamp_response_query` (the crate's own unit test,
+for every id, format, query and body). -/
+theorem response_paths_agree (reqId reqQf : Nat) (reqQuery : Bytes) (bf : Nat) (body : Bytes) :
+    stampResponseQuery (createResponseUnstamped reqId reqQf bf body) reqQuery =
+      createResponse reqId reqQf reqQuery bf body :=
+  stamp_unstamped_response reqId reqQf reqQuery bf body
+
+theorem serialized_len_is_frame_length (m : Message) : m.serializedLen = m.toVec.length :=
+  serializedLen_eq m
+
+/-- Round trip through the stream readers: what `read_message` returns is the message, what
+`read_message_into` leaves in the (reused) buffer is exactly the wire frame — blocking and async. -/
+theorem stream_round_trip (mode : OvMode) (m : Message) (wf : m.WF) (rest : Bytes)
+    (hsz : 48 + m.query.length + m.body.length < 2^62) :
+    readMessage Gen.headerSumForm Gen.readAlloc mode (m.toVec ++ rest) = .ok m ∧
+    readMessage Gen.headerSumForm Gen.asyncReadAlloc mode (m.toVec ++ rest) = .ok m ∧
+    readMessageInto Gen.headerSumForm Gen.readIntoSumForm Gen.readIntoAlloc mode (m.toVec ++ rest) = .ok m.toVec ∧
+    readMessageInto Gen.headerSumForm Gen.asyncReadIntoSumForm Gen.asyncReadIntoAlloc mode (m.toVec ++ rest) = .ok m.toVec := by
+  have h1 : Gen.readAlloc = .fallible := by decide
+  have h2 : Gen.asyncReadAlloc = .fallible := by decide
+  have h3 : Gen.readIntoAlloc = .fallible := by decide
+  have h4 : Gen.asyncReadIntoAlloc = .fallible := by decide
+  rw [h1, h2, h3, h4]
+  exact ⟨readMessage_complete _ mode m wf rest (by omega) (by omega),
+         readMessage_complete _ mode m wf rest (by omega) (by omega),
+         readMessageInto_complete _ _ mode m wf rest hsz, readMessageInto_complete _ _ mode m wf rest hsz⟩
+
+/-- Several frames written back to back and read with one reader and one reused buffer come back as
+exactly those frames, in order (long frame first or not). -/
+theorem stream_pipelined_round_trip (mode : OvMode) (ms : List Message) (tail : Bytes)
+    (hms : ∀ m ∈ ms, m.WF ∧ 48 + m.query.length + m.body.length < 2^62) :
+    readSeq (readMessageInto Gen.headerSumForm Gen.readIntoSumForm Gen.readIntoAlloc mode) ms.length
+      ((ms.map Message.toVec).flatten ++ tail) = (ms.map Message.toVec, tail) ∧
+    readSeq (readMessageInto Gen.headerSumForm Gen.asyncReadIntoSumForm Gen.asyncReadIntoAlloc mode) ms.length
+      ((ms.map Message.toVec).flatten ++ tail) = (ms.map Message.toVec, tail) := by
+  have h3 : Gen.readIntoAlloc = .fallible := by decide
+  have h4 : Gen.asyncReadIntoAlloc = .fallible := by decide
+  rw [h3, h4]
+  exact ⟨readSeq_frames _ ms tail fun m hm rest => readMessageInto_complete _ _ mode m (hms m hm).1 rest (hms m hm).2,
+         readSeq_frames _ ms tail fun m hm rest => readMessageInto_complete _ _ mode m (hms m hm).1 rest (hms m hm).2⟩
 
 /-- Non-vacuity: a concrete consistent message with reserved bits and unknown format codes set. -/
 example : (Message.mk ⟨48+2+3, 0x1507, 7, 200, 0xdeadbeef, 2^64-1, 2, 3, 999, 65535, 77⟩
